@@ -555,14 +555,15 @@ class ItemFactory:
         if unqualified_imports:
             # We try to find the ProcedureItem in the unqualified module imports
             module_names = [imprt.module for imprt in unqualified_imports]
-            candidates = self.get_or_create_module_definitions_from_candidates(
+            # A module procedure that is also named in an interface of its module is listed twice
+            candidates = tuple(dict.fromkeys(self.get_or_create_module_definitions_from_candidates(
                 proc_name, config, module_names=module_names, only=ProcedureItem
-            )
+            )))
             if candidates:
                 if len(candidates) > 1:
                     candidate_modules = [it.scope_name for it in candidates]
                     raise RuntimeError(
-                        f'Procedure {item_name} defined in multiple imported modules: {", ".join(candidate_modules)}'
+                        f'Procedure {proc_name} defined in multiple imported modules: {", ".join(candidate_modules)}'
                     )
                 return candidates[0]
 
